@@ -159,7 +159,7 @@ package node
 //@ func (Block).byteCode [C05,C12] implements ByteCoder.byteCode
 //@   assumes[unfold] forall k :: 0 <= k && k < len(b.Body) ==> wfAST(b.Body[k])
 //@   requires[sel01] srcsel <= 1
-//@   loop 0 invariant[stmts] -1 <= rangeindex && emitInv(cr)
+//@   loop 0 invariant[stmts] -1 <= rangeindex && rangeindex < len(b.Body) && emitInv(cr)
 //@   loop 0 invariant[last] (rangeindex == len(b.Body) - 1 || len(b.Body) == 0) ==> (descOnly(instr, srcsel) && operandOK(instr, srcsel, len(*cr.DS)) && bck(instr, srcsel) != bytecode.AddrImm
 //@       && (bck(instr, srcsel) == bytecode.AddrTmp ==> !fl.Data().ForbidTemp && (fl.Data().OpDepth > 0 || fl.Data().AcceptTemp || fl.Data().Discard)))
 //
